@@ -50,6 +50,7 @@ require (
 	golang.org/x/exp v0.0.0-20250218142911-aa4b98e5adaa // indirect
 	golang.org/x/sync v0.11.0 // indirect
 	golang.org/x/sys v0.30.0 // indirect
+	google.golang.org/grpc v1.70.0 // indirect
 	rsc.io/tmplfunc v0.0.3 // indirect
 )
 
